@@ -279,6 +279,30 @@ func c14Gen(r *Rng, tier string, emit func(string)) {
 		n = 100000
 	}
 	for i := 0; i < n; i++ {
+		if i%250 == 7 {
+			// a chain nested far deeper than any realistic hierarchy (acyclic, so children first all the way down):
+			// relation k has relation k-1 as its only relation member, requested from the top or from the middle
+			depth := 90 + r.Intn(120)
+			var hs []string
+			for id := 1; id <= depth; id++ {
+				if id == 1 {
+					hs = append(hs, "1=n5")
+				} else {
+					hs = append(hs, fmt.Sprintf("%d=%d", id, id-1))
+				}
+			}
+			p := r.Perm(len(hs))
+			sh := make([]string, len(hs))
+			for a, b := range p {
+				sh[a] = hs[b]
+			}
+			req := []string{strconv.Itoa(depth)}
+			if r.Bool() {
+				req = []string{strconv.Itoa(depth / 2), strconv.Itoa(depth)}
+			}
+			emit("order " + strings.Join(req, ",") + " H " + strings.Join(sh, " "))
+			continue
+		}
 		nid := 1 + r.Intn(9)
 		fam := r.Intn(4) // 0 DAG, 1 cyclic, 2 self loops + cycles, 3 chains
 		shift := 0
